@@ -68,8 +68,8 @@ package nfs
 
 //@ define TXALLOC fstxn.FsTxn, alloctxn.AllocTxn, jrnl.Op, []uint64, map[uint64]*inode.Inode, cache.Cslot, inode.Inode, buf.Buf, marshal.Dec, marshal.Enc, cell:uint64, []uint8, addr.Addr
 //@ define TXMODS held, lastst, curop, freshinum, wroteinum, cphase, abits, dirtyinum, cache.Cslot.Obj, map[uint64]*inode.Inode
-//@ define SHRINKMODS muheld, inode.Inode.ShrinkSize, []uint64@inode.Inode.blks, []uint64@alloctxn.AllocTxn.freeBnums, alloctxn.AllocTxn.freeBnums, buf.Buf.dirty, []uint8@buf.Buf.Data
-//@ define FILEMODS inode.Inode.Size, inode.Inode.ShrinkSize, inode.Inode.Atime, inode.Inode.Mtime, inode.Inode.Kind, inode.Inode.Nlink, inode.Inode.Gen, inode.Inode.Inum, inode.Inode.Dcache, []uint64@inode.Inode.blks, alloctxn.AllocTxn.allocBnums, []uint64@alloctxn.AllocTxn.allocBnums, alloctxn.AllocTxn.freeBnums, []uint64@alloctxn.AllocTxn.freeBnums, alloctxn.AllocTxn.allocInums, []uint64@alloctxn.AllocTxn.allocInums, alloctxn.AllocTxn.freeInums, []uint64@alloctxn.AllocTxn.freeInums, buf.Buf.dirty, []uint8@buf.Buf.Data
+//@ define SHRINKMODS muheld, inode.Inode.ShrinkSize, []uint64@inode.Inode.blks, []uint64@alloctxn.AllocTxn.freeBnums, alloctxn.AllocTxn.freeBnums, buf.Buf.dirty, []uint8@buf.Buf.Data, zeroed
+//@ define FILEMODS tailzeroedto, inode.Inode.Size, inode.Inode.ShrinkSize, inode.Inode.Atime, inode.Inode.Mtime, inode.Inode.Kind, inode.Inode.Nlink, inode.Inode.Gen, inode.Inode.Inum, inode.Inode.Dcache, []uint64@inode.Inode.blks, alloctxn.AllocTxn.allocBnums, []uint64@alloctxn.AllocTxn.allocBnums, alloctxn.AllocTxn.freeBnums, []uint64@alloctxn.AllocTxn.freeBnums, alloctxn.AllocTxn.allocInums, []uint64@alloctxn.AllocTxn.allocInums, alloctxn.AllocTxn.freeInums, []uint64@alloctxn.AllocTxn.freeInums, buf.Buf.dirty, []uint8@buf.Buf.Data, zeroed
 //@ define DIRMODS emptychecked, dcache.Dcache.Lastoff, nfstypes.Entry3, cell:*nfstypes.Entry3, nfstypes.Entryplus3, cell:*nfstypes.Entryplus3, map[string]dcache.Dentry, emitted, emitany, emitlast, lastcookie, lastfileid, lastname, lasthino, lasthgen, lastattrid
 //@ define DIRALLOC dir.dirEnt, dcache.Dcache, map[string]dcache.Dentry, nfstypes.Entry3, nfstypes.Entryplus3
 // a transaction that may be ended either way: open, and every held inode is in sync with it
@@ -80,7 +80,7 @@ package nfs
 //@   props C05 C06 C03 C08 C09 C11 C01
 //@   requires rpcPre(nfs)
 //@   allocates fstxn.FsTxn, alloctxn.AllocTxn, jrnl.Op, []uint64, map[uint64]*inode.Inode, cache.Cslot, inode.Inode, buf.Buf, marshal.Dec, marshal.Enc, cell:uint64, []uint8, addr.Addr
-//@   modifies held, lastst, curop, freshinum, wroteinum, cphase, abits, dirtyinum, muheld, cache.Cslot.Obj, map[uint64]*inode.Inode, inode.Inode.ShrinkSize, []uint64@inode.Inode.blks, []uint64@alloctxn.AllocTxn.freeBnums, alloctxn.AllocTxn.freeBnums, buf.Buf.dirty, []uint8@buf.Buf.Data
+//@   modifies held, lastst, curop, freshinum, wroteinum, cphase, abits, dirtyinum, muheld, cache.Cslot.Obj, map[uint64]*inode.Inode, inode.Inode.ShrinkSize, []uint64@inode.Inode.blks, []uint64@alloctxn.AllocTxn.freeBnums, alloctxn.AllocTxn.freeBnums, buf.Buf.dirty, []uint8@buf.Buf.Data, zeroed
 //@   ensures [open] txOpen(result0) && result0.Fs == nfs.fsstate && !muheld[base(nfs.shrinkst.mu)] @C09
 //@   ensures [H1-validated] result2 == 0 ==> goodIp(result1) && matches(result1, fh) && heldOnly(result1.Inum) @C08
 //@   ensures [F6-notshrinking] result2 == 0 ==> !result1.IsShrinking() @C05
@@ -334,7 +334,7 @@ package nfs
 //@   requires locked(ip) && inodeInv(ip) && validInum(ip.Inum)
 //@   requires [I5-emptydir] ip.Kind == 2 ==> emptychecked[ip.Inum] || freshinum[ip.Inum] @C04 @C02
 //@   allocates $TXALLOC, struct:struct{}
-//@   modifies ip.Nlink, ip.Kind, ip.Gen, ip.Size, ip.ShrinkSize, ip.blks[*], dirtyinum, wroteinum, abits, muheld, shrinker.ShrinkerSt.nthread, alloctxn.AllocTxn.allocBnums, []uint64@alloctxn.AllocTxn.allocBnums, alloctxn.AllocTxn.freeBnums, []uint64@alloctxn.AllocTxn.freeBnums, alloctxn.AllocTxn.freeInums, []uint64@alloctxn.AllocTxn.freeInums, buf.Buf.dirty, []uint8@buf.Buf.Data
+//@   modifies ip.Nlink, ip.Kind, ip.Gen, ip.Size, ip.ShrinkSize, ip.blks[*], dirtyinum, wroteinum, abits, muheld, shrinker.ShrinkerSt.nthread, alloctxn.AllocTxn.allocBnums, []uint64@alloctxn.AllocTxn.allocBnums, alloctxn.AllocTxn.freeBnums, []uint64@alloctxn.AllocTxn.freeBnums, alloctxn.AllocTxn.freeInums, []uint64@alloctxn.AllocTxn.freeInums, buf.Buf.dirty, []uint8@buf.Buf.Data, zeroed, tailzeroedto
 //@   ensures [F1-freed] old(ip.Nlink) == 1 ==> ip.Kind == 0 && ip.Gen == old(ip.Gen) + 1 && ip.Size == 0 @C05 @C08
 //@   ensures [F1-kept] old(ip.Nlink) != 1 ==> ip.Kind == old(ip.Kind) && ip.Gen == old(ip.Gen) && ip.Size == old(ip.Size) @C05
 //@   ensures [S1-synced] !dirtyinum[ip.Inum] && othersClean(ip) @C10
